@@ -228,7 +228,7 @@ EXTRA = {
     'C04': 'Also: every x/y/z statement triple of every function of every integrator source file is one formula under an axis permutation (R04.6). R03.7: drift and kick of the barycentric splitting add up to the N-body Hamiltonian. A rejected TRACE step restores every member of the integrator struct that the attempt incremented, the centre-of-mass position included (R04.7). Every pair enters the kick once for every ignore-terms setting (R02.8); R09.3 as for C03.',
     'C05': 'Also: the byte count of every case of the writer\'s dtype switch equals the size of the members the rows of that dtype designate (R05.8). Integer members classified inert (warning latches) guard nothing but messages, so a restored simulation takes the same path as the running one (R05.9); re-attaching the output leaves the persisted cadence counters alone (R06.5). The classification of unpersisted members is checked against the code: the compensated-summation scratch buffer is reset before it is read (R05.10), conditions on scratch counters guard only re-allocation and scratch state (R05.11); the reader\'s byte accounting follows read helpers and is path-sensitive (R05.5); the element counter of an array field is stored for every field read (R06.9); a picked-up snapshot receives the caller\'s keep_unsynchronized on the integrator in use (R09.7/R09.8/R09.11).',
     'C06': 'Also: descriptor rows designate the member they name (R05.2, shared with C05); every per-snapshot array of the archive index gets a value that does not depend on a field being present in the delta (R06.7). The loop that builds the archive index enlarges its arrays in the last iteration their capacity admits (R06.8); reb_particle_diff compares each member of one particle with the same member of the other (R06.6). The element counter of an array field is stored whatever the field\'s size, so a vanished array is dropped on load (R06.9); an empty delta is appended like any other (R06.10).',
-    'C07': 'Also: every branch of Simulation.save_to_file that calls a C save function drains the message queue afterwards (R07.9). Position + length is compared with the file size non-strictly, so a snapshot that ends exactly at EOF is kept (R07.11).',
+    'C07': 'Also: every branch of Simulation.save_to_file that calls a C save function drains the message queue afterwards (R07.9). Position + length is compared with the file size non-strictly, so a snapshot that ends exactly at EOF is kept (R07.11). A byte-wise read of the index scan compares the number of bytes it got with the number it asked for (R07.12).',
     'C08': 'Also: the escape and close-encounter scans of the heartbeat range over the real particles only, compare in the right direction and set the matching status (R08.7); '
            'time and step comparisons of the catch-up loops, the exit test and the snapshot cadence are direction-normalised, and every catch-up loop clamps its last sub-step (R08.8); the swept-sphere tests of the line collision searches are typed the same way, the time of closest approach '
            'taking the role of the step in the extrapolation formula; the synchronise that ends integrate() restores a keep_unsynchronized integrator and leaves its flag alone (R09.3, R09.9). getSimulation reaches integrate(exact_finish_time=1) only with keep_unsynchronized off (R09.11). The user\'s step size is stored when the last step is entered and not again on the retry path; the exit machine is read from reb_check_exit and helpers split off from it (R08.2); switches over r->status handle every enumerator or report (R01.1).',
